@@ -1,5 +1,7 @@
 import SeaQ.Lemmas.DdlCtx
 import SeaQ.Lemmas.DdlBalance
+import SeaQ.Lemmas.DdlPlain
+import SeaQ.Props.C01
 import SeaQ.Model.Affinity
 import SeaQ.Props.C13
 import SeaQ.Props.C14
@@ -27,6 +29,35 @@ theorem ddl_safe (d : Backend) (inl : Bool) (s : SeaQ.Ddl.Stmt)
     (hc : (rStmt d s).all (contentOK d inl) = true) : safe d inl false 0 (rStmt d s) = true := by
   rw [safe_eq_safeN]
   exact ctx_sound d inl _ false false .emp none (by simp) rfl hc (d_rStmt d s false .emp rfl)
+
+/-- the renderer's own text in a schema statement is plain (type names come from the regenerated tables: `tableBal`) -/
+theorem ddl_text_plain (d : Backend) (s : SeaQ.Ddl.Stmt) (hm : SeaQ.Plain.bad (rStmt d s) = false) :
+    ∀ t, Piece.s t ∈ rStmt d s → t.toList.all (plainChar d) = true := by
+  intro t ht
+  cases SeaQ.Plain.e_rStmt d s with
+  | inl hb => rw [hb] at hm; cases hm
+  | inr hall => exact SeaQ.Props.C01.plain_of_okP d t (List.all_eq_true.mp hall _ ht)
+
+/-- `ddl_safe` with the condition on the caller's input only (names are free; comments, enum labels and default
+strings representable; raw text — custom type names, options, extra — non-empty and free of quotes and marks) -/
+theorem ddl_safe_user (d : Backend) (inl : Bool) (s : SeaQ.Ddl.Stmt)
+    (hu : (rStmt d s).all (SeaQ.Props.C01.userOK d inl) = true) : safe d inl false 0 (rStmt d s) = true := by
+  apply ddl_safe
+  have hm : SeaQ.Plain.bad (rStmt d s) = false := by
+    cases hb : SeaQ.Plain.bad (rStmt d s) with
+    | false => rfl
+    | true =>
+      simp only [SeaQ.Plain.bad, List.any_eq_true] at hb
+      obtain ⟨p, hp, hbp⟩ := hb
+      have := List.all_eq_true.mp hu p hp
+      cases p with
+      | raw t => simp_all [SeaQ.Plain.badP, SeaQ.Props.C01.userOK, contentOK]
+      | _ => simp [SeaQ.Plain.badP] at hbp
+  rw [List.all_eq_true] at hu ⊢
+  intro p hp
+  cases p with
+  | s t => exact ddl_text_plain d s hm t hp
+  | _ => simpa [SeaQ.Props.C01.userOK] using hu _ hp
 
 /-- the engine reads the text of a schema statement item by item, as it was written -/
 theorem ddl_read (d : Backend) (s : SeaQ.Ddl.Stmt) (hc : (rStmt d s).all (contentOK d true) = true) :
@@ -180,11 +211,14 @@ theorem fromTable_instance (d : Backend) (table : List Arm) (v : String) (i : Na
   | none => simp [hf] at h
   | some a =>
     have hfa := List.find?_some hf
-    cases hg : a.templates[i]? with
-    | none => simp [hf, hg] at h
-    | some t =>
-      refine ⟨a, List.mem_of_find?_eq_some hf, by simpa using hfa, t, List.mem_of_getElem? hg, ?_⟩
-      simp only [hg, textI_segPieces]
+    cases hcmp : a.computed with
+    | true => simp [hf, hcmp] at h
+    | false =>
+      cases hg : a.templates[i]? with
+      | none => simp [hf, hcmp, hg] at h
+      | some t =>
+        refine ⟨a, List.mem_of_find?_eq_some hf, by simpa using hfa, t, List.mem_of_getElem? hg, ?_⟩
+        simp only [hcmp, hg, Bool.false_eq_true, ↓reduceIte, textI_segPieces]
 
 /-- **C13 at statement level**: the type name a SQLite column definition carries has the affinity intended for the
 abstract type, whatever its parameters and whether or not the column is auto-increment (model rendering →
